@@ -66,6 +66,7 @@ inductive Def where
   | sloop
   | cloop
   | route (src : Nat) (sel : Int) (k : Int)
+  | when (s t : Nat)                 -- the event of `s`, in the transactions in which `t` fires too (specification helper)
   deriving Repr, Inhabited
 
 /-- is the definition a cell (has a current value)?  `collect` is a stream with a hidden state. -/
@@ -192,6 +193,9 @@ def fireOf (sp : Spec) (ev : Events) (look : Nat → Option (Option Int)) (i : N
       | some t => look t
       | none => some none
   | .route src sel k => (look src).map (·.filter fun x => (routeKeys sel x).contains k)
+  | .when s t => do
+      let x ← look s; let y ← look t
+      pure (if y.isSome then x else none)
 
 /-- one round: compute every entry whose operands are available -/
 def round (sp : Spec) (ev : Events) (tbl : Table) : Table :=
